@@ -807,3 +807,91 @@ def weightImg (h : Heap) (w : Nat) (shape : List Nat) (resized : List Rat) : Exc
 end Before
 
 end Darsia.Heap
+
+namespace Darsia.Heap
+
+/-! ### write sets of the source functions (tie to the code: `DarsiaGen.WriteSets`, extracted from the AST)
+
+For every DarSIA function the model covers: which objects *owned by the caller* (the parameters, `self` included,
+anything aliased to them by plain assignment / attribute / subscript / `kwargs.get`, and the global numpy RNG) it
+may write — attribute stores, augmented assignments, item assignments, calls of mutating methods (`list.append`, …
+and DarSIA's own in-place methods), `out=` arguments, `np.random.<fn>` calls. `declaredWrites` is what the heap
+model assumes; the generated table must coincide with it, so a new in-place write in the source breaks a proof
+obligation instead of going unnoticed. In a constructor `self` is the new object and not a caller-owned one. -/
+
+inductive SrcFn
+  | imageInit | scalarInit | opticalInit | copy | add | sub | mul | lt | gt | eq | le | ge | astype | imgAs
+  | metadata | opticalMetadata | timeSlice | timeInterval | slice | subregion | append | setTime
+  | toTrichromatic | toMonochromatic | weight | superpose | stack | resizeCall | resize | equalizeVoxelSize
+  | uniformRefinement | axisReductionCall | reduceAxis | extrude | zerosLike | onesLike | randomPatches
+  | clipModelCall | linearModelCall | scalingModelCall | emdCall | emdPreprocess | geometryIntegrate
+  deriving DecidableEq, Repr
+
+def SrcFn.all : List SrcFn :=
+  [.imageInit, .scalarInit, .opticalInit, .copy, .add, .sub, .mul, .lt, .gt, .eq, .le, .ge, .astype, .imgAs,
+   .metadata, .opticalMetadata, .timeSlice, .timeInterval, .slice, .subregion, .append, .setTime,
+   .toTrichromatic, .toMonochromatic, .weight, .superpose, .stack, .resizeCall, .resize, .equalizeVoxelSize,
+   .uniformRefinement, .axisReductionCall, .reduceAxis, .extrude, .zerosLike, .onesLike, .randomPatches,
+   .clipModelCall, .linearModelCall, .scalingModelCall, .emdCall, .emdPreprocess, .geometryIntegrate]
+
+inductive WRoot | self | arg | globalRng
+  deriving DecidableEq, Repr
+
+inductive WAttr
+  | img | series | date | time | time_dim | time_num | color_space | dimensions | origin | cached_voxel_volume
+  | set_time | other
+  deriving DecidableEq, Repr
+
+inductive WKind | store | aug | setitem | call | out | rng
+  deriving DecidableEq, Repr
+
+structure SrcWrite where
+  root : WRoot
+  kind : WKind
+  attr : WAttr
+  deriving DecidableEq, Repr
+
+/-- what the model assumes about the source: only the documented in-place methods write, and only to `self` -/
+def declaredWrites : SrcFn → List SrcWrite
+  | .append => [⟨.self, .aug, .time_num⟩, ⟨.self, .call, .set_time⟩, ⟨.self, .store, .date⟩, ⟨.self, .store, .img⟩,
+                ⟨.self, .store, .series⟩, ⟨.self, .store, .time_dim⟩]
+  | .setTime => [⟨.self, .store, .time⟩]
+  | .toTrichromatic => [⟨.self, .store, .color_space⟩, ⟨.self, .store, .img⟩]
+  | .geometryIntegrate => [⟨.self, .store, .cached_voxel_volume⟩]
+  | _ => []
+
+def sameSet (a b : List SrcWrite) : Bool := a.all (b.contains ·) && b.all (a.contains ·)
+
+/-- the source functions a modelled call stands for -/
+def Op.srcFns : Op → List SrcFn
+  | .ctor _ => [.imageInit, .scalarInit, .opticalInit]
+  | .copy _ => [.copy]
+  | .add _ _ => [.add, .imageInit, .metadata]
+  | .sub _ _ => [.sub, .imageInit, .metadata]
+  | .mul _ _ _ => [.mul, .copy]
+  | .cmpImg _ _ _ | .cmpNum _ _ _ => [.lt, .gt, .eq, .le, .ge, .zerosLike, .scalarInit, .metadata]
+  | .astype _ | .astypeClass _ _ => [.astype, .copy, .metadata]
+  | .timeSlice _ _ => [.timeSlice, .metadata]
+  | .timeInterval _ _ _ => [.timeInterval, .metadata]
+  | .subregion _ _ _ _ => [.subregion, .metadata]
+  | .weightNum _ _ | .weightImg _ _ _ => [.weight, .copy]
+  | .stack _ => [.stack, .copy]
+  | .copyRebind _ _ _ => [.imgAs, .copy, .clipModelCall]
+  | .derive _ _ _ => [.resizeCall, .resize, .equalizeVoxelSize, .uniformRefinement, .zerosLike, .onesLike, .metadata]
+  | .toMono _ _ _ => [.toMonochromatic, .copy, .scalarInit, .opticalMetadata]
+  | .reduceAxis _ _ _ _ _ => [.axisReductionCall, .reduceAxis, .metadata]
+  | .extrude _ _ _ _ => [.extrude, .metadata]
+  | .superpose _ _ _ _ _ => [.superpose, .scalarInit]
+  | .measure _ _ => [.emdCall, .emdPreprocess]
+  | .arrMap _ _ => [.linearModelCall, .clipModelCall, .scalingModelCall]
+
+/-- executable well-formedness / typing checks (sound for `WF` / `Typed`, see `DarsiaProofs.HeapShare`) -/
+def wfCheck (h : Heap) : Bool := h.all fun v => v.refs.all (· < h.length)
+
+def typedCheck (h : Heap) : Bool :=
+  h.all fun v => match v with
+    | .img r => ((h[r.date]?).map Val.isT == some true) && ((h[r.time]?).map Val.isT == some true)
+    | .view b _ _ => (match h[b]? with | some (.arr _ _) => true | _ => false)
+    | _ => true
+
+end Darsia.Heap
